@@ -129,13 +129,17 @@ class AstTreeProfiler:
         profiled_imports = []
         argsort_tree_indexes = sorted(list(tree_imports_to_profile_dict), reverse=True)
         for tree_index in argsort_tree_indexes:
-            name = tree_imports_to_profile_dict[tree_index]
-            expr = ast_create_profile_node(name)
-            # The inserted statement belongs to the line of the import
-            for new_node in ast.walk(expr):
-                ast.copy_location(new_node, tree.body[tree_index])
-            tree.body.insert(tree_index + 1, expr)
-            profiled_imports.append(name)
+            names = tree_imports_to_profile_dict[tree_index]
+            if isinstance(names, str):
+                names = [names]
+            import_node = tree.body[tree_index]
+            for offset, name in enumerate(names, start=1):
+                expr = ast_create_profile_node(name)
+                # The inserted statement belongs to the line of the import
+                for new_node in ast.walk(expr):
+                    ast.copy_location(new_node, import_node)
+                tree.body.insert(tree_index + offset, expr)
+                profiled_imports.append(name)
         if profile_full_script:
             tree = self._ast_transformer_class_handler(profile_imports=profile_imports,
                                                        profiled_imports=profiled_imports).visit(tree)
